@@ -352,11 +352,15 @@ pub fn tz_strategy() -> impl Strategy<Value = TzCase> {
 pub fn check_tz_change(case: &TzCase, obs: &mut Obs) -> CaseResult {
     use chrono::{NaiveDateTime, Utc};
     let pinned = ("<+0545>-5:45".to_string(), 20_700);
-    let enc = PatternEncoder::new("{d(%z|%Y-%m-%dT%H:%M:%S)}|{d(%z)(local)}");
+    // (the last two fields: the default date format, as `{d}` and spelled out)
+    let enc = PatternEncoder::new("{d(%z|%Y-%m-%dT%H:%M:%S)}|{d(%z)(local)}|{d}|{date(%+)(local)}");
     let rec = Rec { level: 2, target: "t".into(), msg: vec!["m".into()], module: None, file: None, line: None, mdc: vec![] };
     let mut result = Ok(());
+    // every case visits a zone west of Greenwich whose offset is not a whole hour
+    let west = [("<-0330>3:30".to_string(), -12_600), ("<-0930>9:30".to_string(), -34_200), ("<-0045>0:45".to_string(), -2_700)][case.zones.len() % 3].clone();
     let mut seq: Vec<&(String, i32)> = vec![&pinned];
     seq.extend(case.zones.iter());
+    seq.push(&west);
     for (i, (zone, off)) in seq.iter().enumerate() {
         if i > 0 {
             std::env::set_var("TZ", zone);
@@ -380,7 +384,10 @@ pub fn check_tz_change(case: &TzCase, obs: &mut Obs) -> CaseResult {
         let sign = if *off < 0 { '-' } else { '+' };
         let want_z = format!("{}{:02}{:02}", sign, off.abs() / 3600, off.abs() % 3600 / 60);
         let parts: Vec<&str> = out.split('|').collect();
-        let ok = parts.len() == 3 && parts[0] == want_z && parts[2] == want_z && NaiveDateTime::parse_from_str(parts[1], "%Y-%m-%dT%H:%M:%S").map_or(false, |n| {
+        let default_ok = |s: &str| {
+            chrono::DateTime::parse_from_rfc3339(s).map_or(false, |d| d.offset().local_minus_utc() == *off && d.with_timezone(&Utc) >= t0 - chrono::Duration::seconds(1) && d.with_timezone(&Utc) <= t1)
+        };
+        let ok = parts.len() == 5 && parts[0] == want_z && parts[2] == want_z && default_ok(parts[3]) && default_ok(parts[4]) && NaiveDateTime::parse_from_str(parts[1], "%Y-%m-%dT%H:%M:%S").map_or(false, |n| {
             let lo = (t0 + chrono::Duration::seconds(*off as i64 - 1)).naive_utc();
             let hi = (t1 + chrono::Duration::seconds(*off as i64)).naive_utc();
             n >= lo && n <= hi
@@ -530,7 +537,7 @@ pub fn replay(part: &str, case: serde_json::Value) -> Option<CaseResult> {
 pub fn meta() -> EvidenceMeta {
     EvidenceMeta {
         level: "exploration",
-        rule: "cases = patterns generated as an AST over the documented grammar (all formatters and both aliases, literals with doubled/backslash escapes, MDC and date arguments, nesting <=4, optional width specs) printed to a string, x 1-2 generated records (Unicode text, absent optional fields, MDC maps, message delivered in 1-6 pieces), encoded into a capture sink with scripted short writes, on the main or a named thread, under both build profiles; oracle = render(AST, record) computed from the AST (never from re-parsing), equality of whole output, the exact sequence of text pieces and style requests (set before / reset after every highlight group of a coloured level, unaffected by width specs, padding outside), alias-flipped pattern renders identically; sub-second dates: cut out between literal prefix/suffix, parsed back, must lie inside the encode bracket with the requested zone's offset; default-encoder: PatternEncoder::default(), PatternEncoder::new of the documented default pattern and the pattern deserializer without a pattern key must all render 'ISO 8601 local date, level, target - message, line break'; after-fork: the process encodes {P}/{pid}, forks, and the child's rendering must carry the child's id; zone changes: TZ is moved through 2-3 fixed-offset zones while the process runs (1.15 s apart, chrono's own refresh interval) and every local date must carry the offset of the zone in force when it is encoded; non-trivial = AST depth>=2 or escape adjacent to a formatter or absent optional field under a spec or non-ASCII record text or MDC/date argument with escapes; distinct = FNV hash of the case".into(),
+        rule: "cases = patterns generated as an AST over the documented grammar (all formatters and both aliases, literals with doubled/backslash escapes, MDC and date arguments, nesting <=4, optional width specs) printed to a string, x 1-2 generated records (Unicode text, absent optional fields, MDC maps, message delivered in 1-6 pieces), encoded into a capture sink with scripted short writes, on the main or a named thread, under both build profiles; oracle = render(AST, record) computed from the AST (never from re-parsing), equality of whole output, the exact sequence of text pieces and style requests (set before / reset after every highlight group of a coloured level, unaffected by width specs, padding outside), alias-flipped pattern renders identically; sub-second dates: cut out between literal prefix/suffix, parsed back, must lie inside the encode bracket with the requested zone's offset; default-encoder: PatternEncoder::default(), PatternEncoder::new of the documented default pattern and the pattern deserializer without a pattern key must all render 'ISO 8601 local date, level, target - message, line break'; after-fork: the process encodes {P}/{pid}, forks, and the child's rendering must carry the child's id; zone changes: TZ is moved through 2-3 fixed-offset zones while the process runs (1.15 s apart, chrono's own refresh interval) and every local date - also in the default format `{d}` - must carry the offset of the zone in force when it is encoded and denote the instant of encoding (each case ends in a zone west of Greenwich whose offset is not a whole hour); non-trivial = AST depth>=2 or escape adjacent to a formatter or absent optional field under a spec or non-ASCII record text or MDC/date argument with escapes; distinct = FNV hash of the case".into(),
         assumptions: vec![
             "date reference formatting uses chrono itself: checked is that format and zone reach chrono unaltered and the result lands in place".into(),
             "unnamed threads and highlight colours are not asserted (documentation and code disagree; statement requires only unchanged text)".into(),
